@@ -4,8 +4,6 @@ import (
 	"context"
 	"encoding/json"
 	"fmt"
-	"io"
-	"strings"
 	"sync"
 	"time"
 
@@ -704,6 +702,3 @@ func childDeep(in []byte) any {
 	r.OnMsg = w.onMsg
 	return r
 }
-
-var _ = io.Discard
-var _ = strings.Contains
